@@ -500,9 +500,10 @@ def h_scribble(w, st, rec):
     tgt = rec["target"]
     done = False
     if tgt in st.results:
-        for a in st.results[tgt]:
-            if isinstance(a, np.ndarray) and a.size:
-                a += 1000.0
+        res = st.results[tgt]
+        for a in (res if isinstance(res, (list, tuple)) else [res]):
+            if isinstance(a, np.ndarray) and a.size and a.flags.writeable and a.dtype.kind in "iuf":
+                a += 1000
                 done = True
         if done:
             w.faults["caller.scribble_output"] += 1
@@ -644,10 +645,14 @@ def gen_data(g, p, e, equal_sizes, unique):
     Ns = [g.randint(2, 40) if g.random() < 0.95 else 1 for _ in range(e)]
     if equal_sizes:
         Ns = [g.choice([g.randint(2, 40), g.randint(16, 40)])] * e
-    form = g.choice(["f8", "f8", "f8", "f8", "i8", "f4", "F", "view"])    # dtype / memory layout of the caller's arrays
+    forms = ["f8", "f8", "f8", "f8", "i8", "f4", "F", "view"]              # dtype / memory layout of the caller's arrays
+    form0 = g.choice(forms)
+    mixed = e >= 2 and g.random() < 0.3                                    # environments need not share a dtype
+    per_env = [g.choice(forms) if mixed else form0 for _ in range(e)]
     data = []
     for k in range(e):
         N = Ns[k]
+        form = per_env[k]
         rows = list(range(N))
         cols = []
         for i in range(p):
